@@ -353,19 +353,13 @@ func Supervise(o Options) int {
 	if len(fresh) > 0 {
 		code = 1
 		os.MkdirAll(filepath.Join(o.VerifDir, "replays"), 0o755)
-		// Report at most 10 distinct (oracle,class,disc) groups.
+		// Report one replay per distinct (oracle,class) first, then further
+		// discriminators, at most 25 files.
 		seen := map[string]bool{}
+		seenClass := map[string]bool{}
 		nrep := 0
-		for i, v := range fresh {
-			key := v.Oracle + "|" + v.Class + "|" + v.Disc
-			if seen[key] {
-				continue
-			}
-			seen[key] = true
+		emit := func(i int, v ViolationRec) {
 			nrep++
-			if nrep > 10 {
-				break
-			}
 			path := filepath.Join(o.VerifDir, "replays", fmt.Sprintf("%s-%d-%04d.json", o.Prop, o.Seed, i))
 			rb, _ := json.MarshalIndent(map[string]interface{}{
 				"property": v.Property, "oracle": v.Oracle, "class": v.Class, "discriminator": v.Disc,
@@ -374,6 +368,26 @@ func Supervise(o Options) int {
 			os.WriteFile(path, rb, 0o644)
 			fmt.Printf("VIOLATION property=%s replay=%s\n", o.Prop, path)
 			fmt.Printf("  oracle=%s class=%s disc=%s case=%d step=%d\n  %s\n", v.Oracle, v.Class, v.Disc, v.Case, v.Step, firstN(v.Detail, 600))
+		}
+		for i, v := range fresh {
+			ck := v.Oracle + "|" + v.Class
+			if seenClass[ck] || nrep >= 25 {
+				continue
+			}
+			seenClass[ck] = true
+			seen[ck+"|"+v.Disc] = true
+			emit(i, v)
+		}
+		for i, v := range fresh {
+			key := v.Oracle + "|" + v.Class + "|" + v.Disc
+			if seen[key] {
+				continue
+			}
+			seen[key] = true
+			if nrep >= 25 {
+				continue
+			}
+			emit(i, v)
 		}
 		fmt.Printf("  (%d violation(s) in %d distinct group(s))\n", len(fresh), len(seen))
 	}
@@ -470,6 +484,13 @@ func writeEvidence(o Options, ck *Check, t *ShardResult, wall float64, nviol int
 		"inconclusive":        len(t.Inconclusive),
 		"known_findings_hit":  hit,
 		"not_reached":         t.NotReached,
+	}
+	if len(t.Violations) > 0 {
+		vc := map[string]int{}
+		for _, v := range t.Violations {
+			vc[v.Oracle+"|"+v.Class+"|"+v.Disc]++
+		}
+		cov["violation_classes"] = vc
 	}
 	if len(t.Inconclusive) > 0 {
 		cov["inconclusive_first"] = firstN(t.Inconclusive[0], 400)
